@@ -9,7 +9,7 @@
     F-C18-f (a <title> with two text children), for which the statements are refuted below.
     The model covers elements, attributes, class:/style: forms, text, blocks and fragments;
     rstml parsing, token plumbing and component/slot expansion are outside it (compared only). *)
-From Coq Require Import List NArith.
+From Coq Require Import List NArith Bool.
 From LV Require Import Base.Bytes Html.Macro Html.MacroParse Html.MacroAttrProofs Html.MacroProofs.
 Import ListNotations.
 
@@ -80,7 +80,9 @@ Theorem C18_void_tables_agree :
 Proof. exact void_tables_agree. Qed.
 Print Assumptions C18_void_tables_agree.
 
+(** text is escaped on the inert path iff the renderer escapes it (child by child, or the
+    content as a whole for textarea) *)
 Theorem C18_raw_tables_agree :
-  forall tag, negb (mem tag macro_raw) = b_escape tag.
+  forall tag, negb (mem tag macro_raw) = b_escape tag || b_whole tag.
 Proof. exact raw_tables_agree. Qed.
 Print Assumptions C18_raw_tables_agree.
